@@ -27,6 +27,7 @@ type Live struct {
 	Tables  [][]KV
 	EnvOpts []ucfg.Option
 	ResOpts []ucfg.Option
+	Sep     string
 }
 
 // WithEnvOrder is the option list in which the Env options are given in the order (and as often as) order
@@ -34,7 +35,7 @@ type Live struct {
 func (l *Live) WithEnvOrder(order []int, noSep bool) []ucfg.Option {
 	opts := []ucfg.Option{}
 	if !noSep {
-		opts = append(opts, ucfg.PathSep("."))
+		opts = append(opts, ucfg.PathSep(l.Sep))
 	}
 	opts = append(opts, ucfg.VarExp)
 	for _, i := range order {
@@ -49,9 +50,17 @@ func (l *Live) WithEnvOrder(order []int, noSep bool) []ucfg.Option {
 func (l *Live) NoSep() []ucfg.Option { return l.Opts[1:] }
 
 func OptionsLive(envs []*Node, resolvers [][]KV) (*Live, error) {
-	l := &Live{Opts: []ucfg.Option{ucfg.PathSep("."), ucfg.VarExp}}
+	return OptionsLiveSep(envs, resolvers, ".")
+}
+
+// OptionsLiveSep is OptionsLive for configurations whose path separator is sep.
+func OptionsLiveSep(envs []*Node, resolvers [][]KV, sep string) (*Live, error) {
+	if sep == "" {
+		sep = "."
+	}
+	l := &Live{Sep: sep, Opts: []ucfg.Option{ucfg.PathSep(sep), ucfg.VarExp}}
 	for _, e := range envs {
-		ec, err := ucfg.NewFrom(e.Go(), ucfg.PathSep("."), ucfg.VarExp)
+		ec, err := ucfg.NewFrom(e.Go(), ucfg.PathSep(sep), ucfg.VarExp)
 		if err != nil {
 			return nil, fmt.Errorf("building an Env config failed: %v", err)
 		}
